@@ -5,3 +5,5 @@ pub mod prim;
 pub mod glue;
 pub mod zoo;
 pub mod frontend;
+pub mod alloc;
+pub mod sandbox;
